@@ -208,10 +208,13 @@ func c16prop(r *simkit.Run) {
 		spec.plan.cutAt, spec.plan.then = 0, "stall"
 		spec.clientCloseWhenBackendHasRequest = true
 	}
+	if fault == "none" && oddTarget == "" && !spec.lateProbe && rapid.IntRange(0, 15).Draw(rt, "listener-breaks-on-disconnect") == 0 {
+		spec.listenerBreaksOnDisconnect = true
+	}
 	// By draw the client of a fault-free exchange is a slow one, and while the proxy waits for it with response bytes in
 	// hand, another client is served a long response of its own through a forwarder of its own, start to end.
 	var res exchangeResult
-	if fault == "none" && oddTarget == "" && !spec.lateProbe && n >= 60000 && rapid.IntRange(0, 2).Draw(rt, "slow-client-and-a-second-exchange") == 0 {
+	if fault == "none" && oddTarget == "" && !spec.lateProbe && !spec.listenerBreaksOnDisconnect && n >= 60000 && rapid.IntRange(0, 2).Draw(rt, "slow-client-and-a-second-exchange") == 0 {
 		sc := &slowClient{window: 2048, readFirst: rapid.IntRange(1, 3000).Draw(rt, "slow-client-reads-first"), paused: make(chan struct{}), resume: make(chan struct{})}
 		spec.slow = sc
 		obody := bytes.Repeat([]byte("#"), 100000)
@@ -238,6 +241,25 @@ func c16prop(r *simkit.Run) {
 	ctxt := fmt.Sprintf("[backend status %d, %d body bytes, chunked=%v, fault %s cut at %d of %d (head %d)]", status, n, chunked, fault, spec.plan.cutAt, len(respBytes), headLen)
 	if res.hung != "" {
 		r.Fail("hang", "%s %s", res.hung, ctxt)
+	}
+	if spec.listenerBreaksOnDisconnect {
+		// the caller's own listener failed: the request is lost to its client with it. Judged: no hang, and the listener
+		// was told 'connected' once and 'disconnected' once - the failed call is not made up for by a second one
+		r.Fault("listener-callback-panic")
+		conn, disc := 0, 0
+		for _, e := range res.events {
+			if e.state == 0 {
+				conn++
+			} else {
+				disc++
+			}
+		}
+		if conn != 1 || disc != 1 {
+			r.Fail("listener-unpaired", "the listener, which panics when told 'disconnected', was told 'connected' %d times and 'disconnected' %d times for one forwarded request %s", conn, disc, ctxt)
+		}
+		r.Nontrivial()
+		r.SetDigest(uint64(conn*10 + disc))
+		return
 	}
 	if strings.Contains(res.serverLog, "panic serving") {
 		r.Fail("proxy-crash", "the proxy's handler panicked: %s %s", res.serverLog, ctxt)
